@@ -1,0 +1,35 @@
+//! Verification hooks, compiled only with the `verif-hooks` feature.
+//!
+//! H1: observe the program handed to the optimiser by `CodeGenerator::finalize`.
+use std::cell::RefCell;
+use uplc::ast::{Name, Program};
+
+thread_local! {
+    static PRE_OPTIMIZE: RefCell<Option<Vec<Program<Name>>>> = const { RefCell::new(None) };
+}
+
+/// Start (or restart) recording on the current thread.
+pub fn start_recording() {
+    PRE_OPTIMIZE.with(|sink| *sink.borrow_mut() = Some(Vec::new()));
+}
+
+/// Stop recording on the current thread and return what was recorded, in order.
+pub fn take_recorded() -> Vec<Program<Name>> {
+    PRE_OPTIMIZE.with(|sink| sink.borrow_mut().take().unwrap_or_default())
+}
+
+/// Return what was recorded so far and keep recording.
+pub fn drain_recorded() -> Vec<Program<Name>> {
+    PRE_OPTIMIZE.with(|sink| match sink.borrow_mut().as_mut() {
+        Some(v) => std::mem::take(v),
+        None => Vec::new(),
+    })
+}
+
+pub(crate) fn record_pre_optimize(program: Program<Name>) {
+    PRE_OPTIMIZE.with(|sink| {
+        if let Some(v) = sink.borrow_mut().as_mut() {
+            v.push(program);
+        }
+    });
+}
